@@ -121,6 +121,12 @@ class SimConnection(object):
     def close_from_client(self):
         if not self.client_closed:
             self.client_closed = True
+            # (closing a transport ends its stream: connection_lost() -> StreamReader.feed_eof(), so a Connection object
+            # that still refers to this stream reports closed())
+            try:
+                self.reader.feed_eof()
+            except Exception:
+                pass
             self.events.append(('client_close',))
             self.net.log.append((self.id, 'client_close', b''))
             for t in self._tasks:
